@@ -67,4 +67,44 @@ theorem execUniform_of_noConflict (s : Schema) (doc : Document) (hcov : SchemaCo
     collect_inv s doc hnd c rfl rfl U root sel pt ([], []) hpt (subSet_flat s doc pt sel) (by intro p hp; cases hp)
   exact hu_of_ginv s doc hcov hnd c rfl rfl k root _ U huok hcompat hg
 
+/-- the "identical arguments" half at the top level: nodes merged under one response key of the selected operation
+have identical argument sets -/
+theorem merged_same_args_of_noConflict (s : Schema) (doc : Document)
+    (hnd : (fragNames (fragDefs doc)).Nodup)
+    (hfree : ∀ cs, cs ∈ typedSelSets s doc → FieldsInSetCanMerge (envM s doc) cs.1.parent cs.2)
+    (opName : String) (w : Exec.World) {op : OpType} {name : Option Name} {vars : List VarDef}
+    {dirs : List Directive} {sel : SelectionSet} {loc : Loc} {root : String} (v : Coerce.Vars)
+    (hsel : Exec.selectOperation doc opName = .ok (.operation op name vars dirs sel loc))
+    (hroot : s.rootFor op.toString = some root) :
+    ∀ p, p ∈ (Exec.collect ⟨s, doc.fragments, v, w⟩ root sel ([], [])).1 → ∀ n m, n ∈ p.2 → m ∈ p.2 →
+      sameArgsS n.args m.args = true := by
+  intro p hp n m hn hm
+  have hmem := selectOperation_mem doc opName _ hsel
+  have htyped := root_typed s doc hmem
+  let pt := ((TCtx.enterOp s op).enterSelSet s).parent
+  let U : FieldOcc → Prop := fun a => a ∈ flat (envM s doc) pt sel
+  have hcompat : Compat s doc U := by
+    intro a b ha hb hk hp
+    exact hfree _ htyped ⟨a, b, ha, hb, hk, hp⟩
+  have hpt : PtAdm s root pt := by
+    intro x hx
+    have hroot' : s.rootType op = some root := by rw [← rootFor_toString]; exact hroot
+    have : x = root := by
+      simp only [pt, TCtx.enterSelSet, TCtx.enterOp, TCtx.empty, hroot', Option.map_some, GType.namedName] at hx
+      have key : ∀ (b : Bool), (if b = true then some root else none) = some x → x = root := by
+        intro b hb
+        cases b with
+        | false => simp at hb
+        | true => simpa using hb.symm
+      exact key _ hx
+    subst this
+    exact ⟨fun _ => rfl, fun _ => .inl rfl⟩
+  let c : Exec.Ctx := ⟨s, doc.fragments, v, w⟩
+  have hg : GInv s U root (Exec.collect c root sel ([], [])).1 :=
+    collect_inv s doc hnd c rfl rfl U root sel pt ([], []) hpt (subSet_flat s doc pt sel) (by intro p hp; cases hp)
+  rcases hg p hp n hn with ⟨hkn, an, hrn, hun, hpn⟩
+  rcases hg p hp m hm with ⟨hkm, am, hrm, hum, hpm⟩
+  have := same_args s doc hcompat hun hum ((hrn.key.trans hkn).trans (hrm.key.trans hkm).symm) hpn hpm
+  rw [← hrn.2.2.1, ← hrm.2.2.1]; exact this
+
 end GqlModel.OverlapExec
